@@ -160,8 +160,10 @@ class Run:
             "violations": len(violations),
         }
         ev["coverage"].update(self.extra)
-        os.makedirs(os.path.join(VERIF, "evidence"), exist_ok=True)
-        with open(os.path.join(VERIF, "evidence", f"{self.prop}.json"), "w") as f:
+        # VERIF_EVIDENCE_DIR: developer runs against seeded / refactored trees must not overwrite the committed evidence
+        evdir = os.environ.get("VERIF_EVIDENCE_DIR") or os.path.join(VERIF, "evidence")
+        os.makedirs(evdir, exist_ok=True)
+        with open(os.path.join(evdir, f"{self.prop}.json"), "w") as f:
             json.dump(ev, f, indent=1, default=str)
         n_pass = sum(1 for o in self.obligations if o["verdict"] == "pass")
         print(f"[{self.prop}] tier={self.tier} obligations={len(self.obligations)} pass={n_pass} "
